@@ -120,6 +120,13 @@ def gen(rng):
             G.add_trashed(steps, other_td, 'neighbour', 'docs/neighbour', '2021-01-01T01:01:01', 'file', tag='o')
     else:
         tdir, top, _u = rng.choice(locs)
+        if top is not None and rng.random() < 0.5:
+            # the volume's OTHER trash directory exists as well (the administrator created $topdir/.Trash after the first
+            # put, or removed its sticky bit's reason to be...): every command reads both
+            other_ = (top + '/.Trash-%d' % uid) if '/.Trash/' in tdir else (top + '/.Trash/%d' % uid)
+            if other_.startswith(top + '/.Trash-') or L['trash'][top]['top'] == 'sticky':
+                for sub_ in ('', '/files', '/info'):
+                    steps.append(['d', other_ + sub_, 0o700])
     nm = rng.choice(['foreign', 'with space', 'per%cent', 'pl+us', 'ü', 'semi;colon'])
     base = (home + '/w') if top is None else (L['work'][top])
     loc = base + '/' + nm
